@@ -26,6 +26,7 @@ class LModel:
     def __init__(self, ident, nid, baud=250000):
         self.ident = ident
         self.nid, self.baud = nid, baud
+        self.spec = (nid, baud)              # what the node specification says: active after a power cycle unless a configuration is stored
         self.mode = WAIT
         self.selp, self.selt = 0, False      # progress, tainted
         self.idp, self.idt = 0, False
@@ -161,7 +162,7 @@ def abstract_requests(ident):
     reqs += [f(19, b1=0, b2=0), f(19, b1=0, b2=4), f(19, b1=0, b2=8), f(19, b1=0, b2=5), f(19, b1=0, b2=9), f(19, b1=0, b2=10), f(19, b1=1, b2=0), f(19, b1=255, b2=3)]
     reqs += [f(23), f(90), f(91), f(92), f(93), f(94), f(76)]
     reqs += [f(0), f(5), f(16), f(22), f(68), f(79), f(95), f(255)]
-    reqs += [("nmt", 1), ("nmt", 2), ("nmt", 128), ("nmt", 130)]
+    reqs += [("nmt", 1), ("nmt", 2), ("nmt", 128), ("nmt", 130), ("nmt", "power")]      # "power": power cycle (CONodeInit on a fresh RAM, NVM kept)
     return reqs
 
 
@@ -170,7 +171,14 @@ def step(res, sim, m, rq, fail):
     if isinstance(rq, tuple):
         cs = rq[1]
         old_nid = m.nid
-        evs = sim.rx(0, bytes([cs, 0]))
+        if cs == "power":
+            # a stored configuration is the active one after a power cycle as well, for every service of the node
+            evs = sim.cmd("restart") + sim.cmd("start")
+            m.nid, m.baud = m.spec           # an activated but not stored bit rate does not survive the power cycle
+            m.lssdead = False
+            cs = 130
+        else:
+            evs = sim.rx(0, bytes([cs, 0]))
         if cs == 130:
             m.reset_com()
             boot = [(cid, d) for (t, cid, dlc, d, f) in S.txs(evs)]
@@ -285,7 +293,7 @@ def run_seq(res, sim, ident, nid, seq, tag, sample=False):
         return False
     answered = 0
     for rq in seq:
-        script.append(rq.hex()[:10] if not isinstance(rq, tuple) else "nmt%d" % rq[1])
+        script.append(rq.hex()[:10] if not isinstance(rq, tuple) else "nmt%s" % rq[1])
         r, a = step(res, sim, m, rq, fail)
         if r is not True:
             return False, m
@@ -363,6 +371,7 @@ def plan(tier, seed):
     items = [("bfs", i, 4 if q else 5) for i in range(len(IDENTS))]
     items += [("rand", i, 30 if q else 300) for i in range(32 if q else 200)]
     items += [("activate", i, 0) for i in range(4)]
+    items += [("no-identity", i, 0) for i in range(3)]
     # near misses of the two multi-frame sequences (complete: all single and double mutations)
     for i in range(2 if q else len(IDENTS)):
         for which in ("sel", "id"):
@@ -458,6 +467,34 @@ def work(item, ctx):
                     res.counters["activate_scenarios"] += 1
                 finally:
                     sim.close()
+        elif item[0] == "no-identity":
+            # a dictionary whose identity object lacks one of the (in CiA 301 optional) sub-entries 2..4: the node has no usable LSS
+            # address, but 7E5h stays the LSS identifier - whatever arrives there is consumed by LSS and never reaches another service
+            # (the application callback for unclaimed frames included) and nothing is answered that would need the missing fields
+            ident = IDENTS[item[1]]
+            nid = [1, 5, 127][item[1]]
+            cfg = make_cfg(ident, nid)
+            gone = 2 + item[1]
+            cfg.objs = [o for o in cfg.objs if not (o.idx == 0x1018 and o.sub == gone)]
+            cfg.finalize()
+            sim = S.Sim(exe, cfg)
+            try:
+                for rq in [r for r in abstract_requests(ident) if not isinstance(r, tuple)]:
+                    evs = sim.rx(0x7E5, rq)
+                    res.evals += 1
+                    passed = S.cbs(evs, "canrx") + S.cbs(evs, "pdorx")
+                    other = [(cid, d.hex()) for (t, cid, dlc, d, f) in S.txs(evs) if cid != 0x7E4]
+                    if passed or other:
+                        res.violation("c18/no-identity/passed-on", "identity object without sub-index %d: the LSS frame %s was handed on (%r) / caused %r" % (
+                            gone, rq.hex(), [c[:3] for c in passed], other), sim=sim)
+                        return res
+                    for iv in S.invs(evs):
+                        res.violation("c18/inv/" + iv.split()[0], "invariant: " + iv, sim=sim)
+                        return res
+                res.nt("no-identity", item[1])
+                res.counters["frames_to_a_node_without_lss_identity"] += 1
+            finally:
+                sim.close()
         elif item[0] == "nearmiss":
             ident = IDENTS[item[1]]
             nid = [1, 5, 127, 64][item[1]]
